@@ -181,7 +181,7 @@ def run(ctx):  # noqa: C901, PLR0912, PLR0915
                'the send time handed to the queue is in seconds (absolute, like time.time())', fi=fi, node=c,
                witness={'unit': u.unit(em[0].args[0]) if em and em[0].args else None})
     # the send loop compares with time.time()
-    rs = repo.func(f'{NT}.NetworkingThread._run_send')
+    rs = expand_aliases(repo.func(f'{NT}.NetworkingThread._run_send'))   # `q = self._send_queue` style aliases written out
     # (the comparison itself is decided below, 'datagrams are sent only when due', as a path condition)
     clock = [c for c in ast.walk(rs.node) if isinstance(c, ast.Compare) and 'send_time' in unparse(c) and
              'time.time()' in unparse(c)]
@@ -207,8 +207,8 @@ def run(ctx):  # noqa: C901, PLR0912, PLR0915
             fields.append(st.target.id)
     for n in mod.tree.body:
         if isinstance(n, ast.Assign) and isinstance(n.value, ast.Call) and call_name(n.value) == '_UdpRepeatParams':
-            vals = [a.value for a in n.value.args if isinstance(a, ast.Constant)]
-            if len(vals) == len(fields):
+            vals = _param_values(n.value, fields)
+            if vals is not None:
                 psets[unparse(n.targets[0])] = dict(zip(fields, vals))
     ctx.floor('C15.R2', len(psets), 2, 'parameter sets for the interval evaluation')
     # synthetic parameter sets with pairwise distinct values: a literal or a wrong field in place of the right field shows up
@@ -262,7 +262,7 @@ def run(ctx):  # noqa: C901, PLR0912, PLR0915
     n_sets = 0
     for n in mod.tree.body:
         if isinstance(n, ast.Assign) and isinstance(n.value, ast.Call) and call_name(n.value) == '_UdpRepeatParams':
-            vals = [a.value for a in n.value.args if isinstance(a, ast.Constant)]
+            vals = _param_values(n.value, fields) or []
             n_sets += 1
             ok = len(vals) == 5 and 0 <= vals[2] < vals[3] <= vals[4] and vals[1] >= 1 and vals[0] >= 0
             ctx.ob('C15.R3', f'{unparse(n.targets[0])}', ok,
@@ -323,6 +323,19 @@ def run(ctx):  # noqa: C901, PLR0912, PLR0915
 OPAQUE = object()
 
 
+def _param_values(call, fields):
+    """Constant values of a _UdpRepeatParams(...) call in field order - positional and / or keyword arguments."""
+    vals = {}
+    for f, a in zip(fields, call.args):
+        vals[f] = a
+    for k in call.keywords:
+        if k.arg in fields:
+            vals[k.arg] = k.value
+    if set(vals) != set(fields) or not all(isinstance(v, ast.Constant) for v in vals.values()):
+        return None
+    return [vals[f].value for f in fields]
+
+
 def interval_eval(fn, param, pvals):  # noqa: C901
     """Interval abstract interpretation of _repeated_enqueue_msg.  Values are (lo, hi) floats; time.time() is the
     origin [0, 0]; values that are not numbers (the queue, the message) are opaque.  Returns the list of
@@ -331,6 +344,7 @@ def interval_eval(fn, param, pvals):  # noqa: C901
     env = {}
     sends = []
     acc = {}   # variable -> interval added to it since the last put
+    copy_of = {}   # x = y (plain copy of a number variable): x stands for y when it is handed to the queue
 
     def ev(e):  # noqa: C901, PLR0911
         if isinstance(e, ast.Constant) and isinstance(e.value, (int, float)) and not isinstance(e.value, bool):
@@ -411,6 +425,11 @@ def interval_eval(fn, param, pvals):  # noqa: C901
                 st = ast.Assign(targets=[st.target], value=st.value)
             if isinstance(st, ast.Assign) and len(st.targets) == 1 and isinstance(st.targets[0], ast.Name):
                 name = st.targets[0].id
+                copy_of.pop(name, None)
+                if isinstance(st.value, ast.Name) and st.value.id in env and env[st.value.id] is not OPAQUE:
+                    copy_of[name] = copy_of.get(st.value.id, st.value.id)
+                    env[name] = env[st.value.id]
+                    continue
                 inc = increment_of(name, st.value)
                 try:
                     val = ev(st.value)
@@ -433,15 +452,16 @@ def interval_eval(fn, param, pvals):  # noqa: C901
                     raise AnalysisError('interval: put without _EnqueuedMessage(send_time, ...)')
                 targ = em[0].args[0]
                 t = ev(targ)
+                src = copy_of.get(targ.id, targ.id) if isinstance(targ, ast.Name) else None
                 if sends:
-                    if isinstance(targ, ast.Name) and targ.id in acc:
-                        gap = acc[targ.id]
+                    if src is not None and src in acc:
+                        gap = acc[src]
                     else:
                         gap = (t[0] - sends[-1][1], t[1] - sends[-1][0])  # uncorrelated over-approximation
                 else:
                     gap = None
-                if isinstance(targ, ast.Name):
-                    acc[targ.id] = (0.0, 0.0)
+                if src is not None:
+                    acc[src] = (0.0, 0.0)
                 sends.append((t[0], t[1], gap))
                 continue
             if isinstance(st, ast.For) and isinstance(st.iter, ast.Call) and call_name(st.iter) == 'range' and not st.orelse:
